@@ -156,7 +156,31 @@ func (r Req) Build() *http.Request {
 // reported in Resp.Panic (net/http would abort the connection).
 func (w *World) Do(r Req) (resp Resp) {
 	atomic.AddInt64(&w.Requests, 1)
-	return Serve(w.H, r)
+	return Serve(w.H, w.Addr(r))
+}
+
+// HostBase is the virtual-host base used in host-bucket worlds.
+const HostBase = "s3.test"
+
+// Addr rewrites a path-style request without an explicit Host into
+// virtual-host style when the world runs in host-bucket mode, so that drivers
+// can be written path-style once.
+func (w *World) Addr(r Req) Req {
+	if r.Host != "" || (!w.Cfg.HostBucket && len(w.Cfg.HostBases) == 0) {
+		return r
+	}
+	p := strings.TrimPrefix(r.Path, "/")
+	if p == "" {
+		return r
+	}
+	parts := strings.SplitN(p, "/", 2)
+	r.Host = parts[0] + "." + HostBase
+	if len(parts) == 2 {
+		r.Path = "/" + parts[1]
+	} else {
+		r.Path = "/"
+	}
+	return r
 }
 
 func Serve(h http.Handler, r Req) (resp Resp) {
